@@ -102,7 +102,7 @@ PLANS = {
                 + flow("c07", ["general", "degenerate", "big", "wide", "dense", "multirow", "obstruction", "paramfuzz"], "ndebug", 200, 3000)
                 + flow("c07", ["floating"], "asan", 1200, 12000) + flow("c07", ["floating"], "ndebug", 600, 6000)
                 + flow("c07", ["blocked"], "asan", 800, 8000) + flow("c07", ["blocked"], "ndebug", 200, 3000)
-                + flow("c07", ["scale"], "asan", 16, 32) + flow("c07", ["scale"], "fast", 16, 64)
+                + flow("c07", ["scale"], "asan", 8, 32) + flow("c07", ["scale"], "fast", 16, 64)
                 + [MC("h_flow", "c07.general", 48), MC("h_flow", "c07.degenerate", 48), MC("h_flow", "c07.paramfuzz", 48)],
     },
     "C10": {
